@@ -65,6 +65,7 @@ func c22Main(seed uint64, n int, keys, replay string) {
 		policy string
 		mode   int
 		sig    string
+		chain  int
 	}
 	var cfgs []cfg
 	if replay != "" {
@@ -76,21 +77,29 @@ func c22Main(seed uint64, n int, keys, replay string) {
 			fmt.Fprintln(os.Stderr, "replay file has no case")
 			os.Exit(2)
 		}
-		cfgs = append(cfgs, cfg{rp.Case.S["policy"], rp.Case.P["mode"], rp.Case.S["sig"]})
+		cfgs = append(cfgs, cfg{rp.Case.S["policy"], rp.Case.P["mode"], rp.Case.S["sig"], rp.Case.P["chain"]})
 	} else {
 		// the full matrix policies x {Sign, SignAndEncrypt} x signature variants, then None, then seeded repeats
 		for _, p := range c22Policies {
 			for m := 2; m <= 3; m++ {
 				for _, s := range c22Sigs {
-					cfgs = append(cfgs, cfg{p, m, s})
+					cfgs = append(cfgs, cfg{p, m, s, 0})
+				}
+			}
+		}
+		// the client presents a certificate chain (leaf + issuer): every variant, two policies
+		for _, p := range []string{"Basic256Sha256", "Aes256_Sha256_RsaPss"} {
+			for m := 2; m <= 3; m++ {
+				for _, s := range c22Sigs {
+					cfgs = append(cfgs, cfg{p, m, s, 1})
 				}
 			}
 		}
 		for _, s := range c22Sigs {
-			cfgs = append(cfgs, cfg{"None", 1, s})
+			cfgs = append(cfgs, cfg{"None", 1, s, 0})
 		}
 		for len(cfgs) < n {
-			cfgs = append(cfgs, cfg{c22Policies[r.Intn(len(c22Policies))], r.Range(2, 3), c22Sigs[r.Intn(len(c22Sigs))]})
+			cfgs = append(cfgs, cfg{c22Policies[r.Intn(len(c22Policies))], r.Range(2, 3), c22Sigs[r.Intn(len(c22Sigs))], r.Intn(2)})
 		}
 		if n < len(cfgs) && n > 0 {
 			// quick tier: a seeded sample that still contains every signature variant and every policy
@@ -106,7 +115,7 @@ func c22Main(seed uint64, n int, keys, replay string) {
 			}
 			for _, i := range perm {
 				c := cfgs[i]
-				k1, k2 := "s:"+c.sig+fmt.Sprint(c.mode == 1), "p:"+c.policy+fmt.Sprint(c.mode)
+				k1, k2 := "s:"+c.sig+fmt.Sprint(c.mode == 1, c.chain), "p:"+c.policy+fmt.Sprint(c.mode)
 				if !seen[k1] || !seen[k2] || len(sel) < n {
 					seen[k1], seen[k2] = true, true
 					sel = append(sel, c)
@@ -253,7 +262,7 @@ func c22Main(seed uint64, n int, keys, replay string) {
 		}()
 	}
 	for i, c := range cfgs {
-		ch <- &Case{ID: i, Op: "c22", P: map[string]int{"mode": c.mode}, S: map[string]string{"policy": c.policy, "sig": c.sig, "keys": keys}}
+		ch <- &Case{ID: i, Op: "c22", P: map[string]int{"mode": c.mode, "chain": c.chain}, S: map[string]string{"policy": c.policy, "sig": c.sig, "keys": keys}}
 	}
 	close(ch)
 	wg.Wait()
@@ -279,7 +288,13 @@ func runC22(cs *Case) (res Result) {
 		opcua.AuthAnonymous(),
 	}
 	if mode != ua.MessageSecurityModeNone {
-		opts = append(opts, opcua.Certificate(cliCert), opcua.PrivateKey(cliKey), opcua.RemoteCertificate(srvCert))
+		cert := cliCert
+		if cs.P["chain"] == 1 {
+			// the application instance certificate followed by its issuer: a chain of two DER certificates
+			ca, _, _ := scriptsrv.KeyPair(keys, "other", 2048)
+			cert = append(append([]byte{}, cliCert...), ca...)
+		}
+		opts = append(opts, opcua.Certificate(cert), opcua.PrivateKey(cliKey), opcua.RemoteCertificate(srvCert))
 	}
 	var states []int
 	var mu sync.Mutex
